@@ -63,6 +63,13 @@ func buildFailing(r *rand.Rand, d *vkit.JNode, yaml bool, used *[]vkit.JPath) (a
 			return match.Any(missing), fSpec{"Any", missing, "missing-path"}, true
 		}
 		*used = append(*used, p)
+		switch r.IntN(6) {
+		case 0:
+			// null is not a value of an interface type either
+			return match.Type[error](pathOf(p)), fSpec{"Type", pathOf(p), "wrong-type-null-interface-expected"}, true
+		case 1:
+			return match.Type[fmt.Stringer](pathOf(p)).ErrOnMissingPath(false), fSpec{"Type", pathOf(p), "wrong-type-null-interface-expected"}, true
+		}
 		if r.IntN(2) == 0 {
 			return match.Type[string](pathOf(p)).ErrOnMissingPath(false), fSpec{"Type", pathOf(p), "wrong-type-null-lenient"}, true
 		}
